@@ -96,6 +96,10 @@ impl<K, V> HashMap<K, V> {
         ensures r == self@.contains_key(*k),
     { unimplemented!() }
     #[verifier::external_body]
+    pub fn is_empty(&self) -> (r: bool)
+        ensures r == (self@.len() == 0), self@.dom().finite(),
+    { unimplemented!() }
+    #[verifier::external_body]
     pub fn len(&self) -> (r: usize)
         ensures r == self@.len(), self@.dom().finite(),
     { unimplemented!() }
@@ -383,7 +387,7 @@ impl ConfigState {
     //@fn command/src/state.rs ConfigState::remove_certificate
     //@  ret r
     //@  subst "Fingerprint(\n            hex::decode(&remove.fingerprint)\n                .map_err(|decode_error| StateError::RemoveCertificate(decode_error.to_string()))?,\n        )" => "verif_hex_fingerprint(&remove.fingerprint)?"
-    //@  subst "&remove.address.into()" => "&verif_to_sockaddr(remove.address)"
+    //@  subst "let address: SocketAddr = remove.address.into();" => "let address: SocketAddr = verif_to_sockaddr(remove.address);"
     //@  ensures
     //@    r is Err ==> same_config(*old(self), *final(self)),                                         // [rejected-leaves-no-trace]
     //@    r is Ok ==> ({
@@ -391,7 +395,9 @@ impl ConfigState {
     //@        let ov = certs_view(old(self).certificates); let nv = certs_view(final(self).certificates);
     //@        &&& same_config(ConfigState { certificates: final(self).certificates, ..*old(self) }, *final(self))
     //@        &&& forall|j: SocketAddr| j != k ==> (ov.contains_key(j) == nv.contains_key(j) && (ov.contains_key(j) ==> ov[j] == nv[j]))
-    //@        &&& ov.contains_key(k) == nv.contains_key(k) }),                                              // [accepted-changes-only-named-address]
+    //@        // the named address only loses certificates; it keeps an entry only while it still has one
+    //@        &&& (nv.contains_key(k) ==> ov.contains_key(k) && nv[k].submap_of(ov[k]) && nv[k].len() > 0)
+    //@        &&& (!ov.contains_key(k) ==> !nv.contains_key(k)) }),                                         // [accepted-changes-only-named-address]
     //@end
 
     //@fn command/src/state.rs ConfigState::replace_certificate
